@@ -2,6 +2,7 @@ package main
 
 import (
 	"fmt"
+	"math"
 
 	"github.com/DataDog/sketches-go/ddsketch/pb/sketchpb"
 	"google.golang.org/protobuf/proto"
@@ -67,6 +68,32 @@ func (g *Gen) genProtoHistory() {
 		sg.queries(2, 4)
 	}
 	sg.obs(1)
+	if r.Bool(20) {
+		// the sketch's mapping object is REPLACED by a decoded mapping that is equal within the tolerance of Equals
+		// but not bit for bit (gamma one ulp away): both protobuf forms must carry the mapping the sketch now has
+		// (round 11, seeded change C09h cached the mapping message of the first ToProto)
+		pb0 := sg.m.ToProto()
+		g2 := math.Nextafter(pb0.Gamma, []float64{2, 1}[r.Intn(2)])
+		if m2, err := newMapping(sg.mkind, g2, pb0.IndexOffset); err == nil && m2.Equals(sg.m) {
+			sg.line("M 2 %s %s %s %s %s %s", sg.mkind, hexF(g2), hexF(pb0.IndexOffset), hexF(m2.MinIndexableValue()), hexF(m2.MaxIndexableValue()), hexF(m2.RelativeAccuracy()))
+			sg.line("K 7 2 sparse")
+			sg.add(7, 0, float64(r.Range(1, 3)))
+			if bs, ok := sg.bytesOf(7, false); ok {
+				if sg.line("decm 1 %s", showBytes(bs)) == "ok" {
+					if e := sg.sh.sks[1]; e != nil && !e.poisoned {
+						var mb2, sb2 []byte
+						if okp, _ := guard(func() { mb2, sb2, _ = protoBytes(e.sk()) }); okp {
+							sg.line("pbchk 1 %s %s", showBytes(mb2), showBytes(sb2))
+							sg.line("pbeq 1")
+							sg.encchk(1, false)
+							g.stats["mapping-replaced-by-decode"]++
+						}
+					}
+				}
+			}
+			return
+		}
+	}
 	// a hand-built message giving bins both sparsely and contiguously: they add up
 	pbm := sg.m.ToProto()
 	base := sg.center
